@@ -16,6 +16,7 @@ import (
 	"strconv"
 	"strings"
 	"sync"
+	"sync/atomic"
 	"time"
 
 	"github.com/ThreeDotsLabs/watermill"
@@ -53,6 +54,8 @@ type pcase struct {
 	errText []string // texts (one for plain kinds, the parts' own texts for multi)
 	partS   []bool   // multi: which part wraps the sentinel
 	opubOk  bool
+	seq     string // kind pqf: the answers ("1"/"0") the scripted stateful filter still has when this message arrives
+	pqf     bool
 }
 
 // buildErr constructs the handler's error; returns it, whether errors.Is(err, sentinel) must hold by construction,
@@ -126,6 +129,14 @@ func (c *pcase) req() string {
 	if strings.HasPrefix(filter, "text:") {
 		filter = "text:" + wh.HexS(filter[5:])
 	}
+	kind := "pq"
+	if c.pqf {
+		kind = "pqf"
+		filter = "seq:" + c.seq
+		if c.seq == "" {
+			filter = "seq:-"
+		}
+	}
 	po := "ok"
 	if c.pubFail != "" {
 		po = "fail:" + wh.HexS(c.pubFail[1:])
@@ -137,7 +148,7 @@ func (c *pcase) req() string {
 			op = "ok"
 		}
 	}
-	return strings.Join([]string{"pq", c.mode, wh.HexS(c.ptopic), filter, po, wh.HexS(c.ctxT), wh.HexS(c.ctxH), wh.HexS(c.ctxS),
+	return strings.Join([]string{kind, c.mode, wh.HexS(c.ptopic), filter, po, wh.HexS(c.ctxT), wh.HexS(c.ctxH), wh.HexS(c.ctxS),
 		wh.HexS(c.uuid), wh.Hex(c.payload), wh.Meta(c.meta), pairs(c.sets), strconv.Itoa(c.nouts), e, op}, " ")
 }
 
@@ -153,12 +164,20 @@ type pubRec struct {
 }
 
 // recPub records every Publish call (a snapshot of each message at that moment) and answers as scripted.
+// Sequential use: reset(consumed, fail). Several messages in flight: pair(scripts), attribution through the uuid.
 type recPub struct {
 	mu       sync.Mutex
 	recs     []pubRec
 	calls    int
 	fail     error
 	consumed *message.Message
+	byUUID   map[string]pubScript
+	hook     func(m *message.Message) // called inside Publish, outside the lock (forced interleavings)
+}
+
+type pubScript struct {
+	consumed *message.Message
+	fail     error
 }
 
 func settled(m *message.Message) bool {
@@ -180,23 +199,51 @@ func settled(m *message.Message) bool {
 
 func (p *recPub) Publish(topic string, msgs ...*message.Message) error {
 	p.mu.Lock()
+	hook := p.hook
+	p.mu.Unlock()
+	if hook != nil {
+		for _, m := range msgs {
+			hook(m)
+		}
+	}
+	p.mu.Lock()
 	defer p.mu.Unlock()
 	p.calls++
+	fail := p.fail
 	for _, m := range msgs {
+		consumed := p.consumed
+		if sc, ok := p.byUUID[m.UUID]; ok {
+			consumed = sc.consumed
+			if sc.fail != nil {
+				fail = sc.fail
+			}
+		}
 		md := map[string]string{}
 		for k, v := range m.Metadata {
 			md[k] = v
 		}
-		p.recs = append(p.recs, pubRec{topic, m.UUID, append([]byte{}, m.Payload...), md, m == p.consumed, !settled(p.consumed)})
+		p.recs = append(p.recs, pubRec{topic, m.UUID, append([]byte{}, m.Payload...), md, m == consumed, !settled(consumed)})
 	}
-	return p.fail
+	return fail
 }
 func (p *recPub) Close() error { return nil }
 
 func (p *recPub) reset(consumed *message.Message, fail error) {
 	p.mu.Lock()
-	p.recs, p.calls, p.fail, p.consumed = nil, 0, fail, consumed
+	p.recs, p.calls, p.fail, p.consumed, p.byUUID, p.hook = nil, 0, fail, consumed, nil, nil
 	p.mu.Unlock()
+}
+
+func (p *recPub) pair(scripts map[string]pubScript, hook func(m *message.Message)) {
+	p.mu.Lock()
+	p.recs, p.calls, p.fail, p.consumed, p.byUUID, p.hook = nil, 0, nil, nil, scripts, hook
+	p.mu.Unlock()
+}
+
+func (p *recPub) count() int {
+	p.mu.Lock()
+	defer p.mu.Unlock()
+	return len(p.recs)
 }
 
 type chanSub struct {
@@ -213,21 +260,57 @@ func (s *chanSub) Close() error { s.once.Do(func() { close(s.ch) }); return nil 
 
 // ---------------------------------------------------------------- building blocks shared by both modes
 
-func (c *pcase) middleware(pub message.Publisher) (message.HandlerMiddleware, error) {
+// filterCtl belongs to one middleware value: it counts the consultations of the filter, carries the scripted answers
+// of a stateful filter (kind seq) and an optional hook called inside the filter (forced interleavings).
+type filterCtl struct {
+	calls   int32
+	answers string
+	mu      sync.Mutex
+	hook    func(err error)
+}
+
+func (ctl *filterCtl) n() int { return int(atomic.LoadInt32(&ctl.calls)) }
+
+func (ctl *filterCtl) setHook(h func(err error)) {
+	ctl.mu.Lock()
+	ctl.hook = h
+	ctl.mu.Unlock()
+}
+
+func (c *pcase) middleware(pub message.Publisher, ctl *filterCtl) (message.HandlerMiddleware, error) {
+	if ctl == nil {
+		ctl = &filterCtl{}
+	}
+	var base func(err error, idx int) bool
 	switch {
 	case c.filter == "all":
 		return middleware.PoisonQueue(pub, c.ptopic)
 	case c.filter == "fall":
-		return middleware.PoisonQueueWithFilter(pub, c.ptopic, func(error) bool { return true })
+		base = func(error, int) bool { return true }
 	case c.filter == "none":
-		return middleware.PoisonQueueWithFilter(pub, c.ptopic, func(error) bool { return false })
+		base = func(error, int) bool { return false }
 	case c.filter == "is":
-		return middleware.PoisonQueueWithFilter(pub, c.ptopic, func(err error) bool { return errors.Is(err, sentinel) })
+		base = func(err error, _ int) bool { return errors.Is(err, sentinel) }
 	case strings.HasPrefix(c.filter, "text:"):
 		needle := c.filter[5:]
-		return middleware.PoisonQueueWithFilter(pub, c.ptopic, func(err error) bool { return strings.Contains(err.Error(), needle) })
+		base = func(err error, _ int) bool { return strings.Contains(err.Error(), needle) }
+	case strings.HasPrefix(c.filter, "seq:"):
+		// a stateful filter (budget, rate limit, "first occurrence only"): the i-th consultation gets the i-th answer
+		ctl.answers = c.filter[4:]
+		base = func(_ error, idx int) bool { return idx < len(ctl.answers) && ctl.answers[idx] == '1' }
+	default:
+		panic("filter " + c.filter)
 	}
-	panic("filter " + c.filter)
+	return middleware.PoisonQueueWithFilter(pub, c.ptopic, func(err error) bool {
+		idx := int(atomic.AddInt32(&ctl.calls, 1)) - 1
+		ctl.mu.Lock()
+		h := ctl.hook
+		ctl.mu.Unlock()
+		if h != nil {
+			h(err)
+		}
+		return base(err, idx)
+	})
 }
 
 func (c *pcase) message() *message.Message {
@@ -321,16 +404,25 @@ func uuids(ms []*message.Message) string {
 	return strings.Join(out, ",")
 }
 
-func (p *recPub) render() string {
+func (p *recPub) render() string { return p.renderSel(func(pubRec) bool { return true }) }
+
+// renderFor: the publishes that carried this uuid (several messages in flight)
+func (p *recPub) renderFor(uuid string) string {
+	return p.renderSel(func(r pubRec) bool { return r.uuid == uuid })
+}
+
+func (p *recPub) renderSel(sel func(pubRec) bool) string {
 	p.mu.Lock()
 	defer p.mu.Unlock()
-	s := "P" + strconv.Itoa(len(p.recs))
-	if len(p.recs) == 0 {
-		return s
+	var es []string
+	for _, r := range p.recs {
+		if sel(r) {
+			es = append(es, strings.Join([]string{wh.HexS(r.topic), wh.HexS(r.uuid), wh.Hex(r.payload), wh.Meta(r.meta), bit(r.same), bit(r.unsettled)}, "|"))
+		}
 	}
-	es := make([]string, len(p.recs))
-	for i, r := range p.recs {
-		es[i] = strings.Join([]string{wh.HexS(r.topic), wh.HexS(r.uuid), wh.Hex(r.payload), wh.Meta(r.meta), bit(r.same), bit(r.unsettled)}, "|")
+	s := "P" + strconv.Itoa(len(es))
+	if len(es) == 0 {
+		return s
 	}
 	return s + ":" + strings.Join(es, ";")
 }
@@ -354,79 +446,120 @@ func runSA(c *pcase) (obs string) {
 	}()
 	perr := c.pubErr()
 	pub.reset(msg, perr)
-	mw, err := c.middleware(pub)
+	ctl := &filterCtl{}
+	mw, err := c.middleware(pub, ctl)
 	if err != nil {
 		return "P0 O:- E:other:" + wh.HexS(err.Error()) + " A:- S:-"
 	}
 	hi := c.newHerr()
 	outs, ret := mw(c.handlerFunc(hi))(msg)
-	return pub.render() + " O:" + uuids(outs) + " E:" + errClass(ret, hi, perr) + " A:" + wh.Meta(msg.Metadata) + " S:-"
+	obs = pub.render() + " O:" + uuids(outs) + " E:" + errClass(ret, hi, perr) + " A:" + wh.Meta(msg.Metadata) + " S:-"
+	if c.pqf {
+		obs += " F:" + strconv.Itoa(ctl.n())
+	}
+	return obs
 }
 
 // ---------------------------------------------------------------- mode rt
 
-// rtEnv is one running Router with the poison middleware installed; cases are streamed through it one at a time.
+// rtEnv is one running Router with ONE poison middleware value installed (router-level, or added to each handler);
+// it may have several handlers (own topic, name, subscriber). Messages are scripted per message object, so that
+// several can be in flight.
 type rtEnv struct {
 	router  *message.Router
-	sub     *chanSub
+	subs    []*chanSub
+	protos  []*pcase
 	ppub    *recPub // poison publisher
-	opub    *recPub // the handler's own publisher (outputs)
+	opub    *recPub // the handlers' own publisher (outputs)
+	ctl     *filterCtl
+	mw      message.HandlerMiddleware
 	cancel  context.CancelFunc
 	runDone chan error
 
 	mu      sync.Mutex
-	cur     *pcase
-	curHi   *herrInfo
-	seenOut []*message.Message
-	seenErr error
+	scripts map[*message.Message]*script
+}
+
+type script struct {
+	c       *pcase
+	hi      *herrInfo
+	block   chan struct{} // handler blocks on it before returning (nil: does not block)
+	reached chan struct{} // closed when the handler is about to block
 	seen    bool
+	seenErr error
 }
 
 const settleTimeout = 30 * time.Second
 
-func newRT(proto *pcase, handlerLevel bool) (*rtEnv, error) {
-	e := &rtEnv{sub: &chanSub{name: proto.ctxS, ch: make(chan *message.Message)}, ppub: &recPub{}, opub: &recPub{}, runDone: make(chan error, 1)}
+func (e *rtEnv) script(m *message.Message) *script {
+	e.mu.Lock()
+	defer e.mu.Unlock()
+	return e.scripts[m]
+}
+
+// hf is the handler function of every handler: it plays the script of the message it is given.
+func (e *rtEnv) hf(m *message.Message) ([]*message.Message, error) {
+	sc := e.script(m)
+	if sc == nil {
+		return nil, errors.New("harness: unknown message object")
+	}
+	outs, err := sc.c.handlerFunc(sc.hi)(m)
+	if sc.block != nil {
+		close(sc.reached)
+		<-sc.block
+	}
+	return outs, err
+}
+
+func newRT(protos []*pcase, handlerLevel bool) (*rtEnv, error) {
+	e := &rtEnv{protos: protos, ppub: &recPub{}, opub: &recPub{}, ctl: &filterCtl{}, runDone: make(chan error, 1), scripts: map[*message.Message]*script{}}
 	r, err := message.NewRouter(message.RouterConfig{CloseTimeout: 10 * time.Second}, watermill.NopLogger{})
 	if err != nil {
 		return nil, err
 	}
 	e.router = r
-	mw, err := proto.middleware(e.ppub)
+	mw, err := protos[0].middleware(e.ppub, e.ctl)
 	if err != nil {
 		return nil, err
 	}
+	e.mw = mw
 	// the observer sits outside the poison middleware and sees what it returns to the Router
 	observer := func(h message.HandlerFunc) message.HandlerFunc {
 		return func(m *message.Message) ([]*message.Message, error) {
 			outs, err := h(m)
-			e.mu.Lock()
-			e.seenOut, e.seenErr, e.seen = outs, err, true
-			e.mu.Unlock()
+			if sc := e.script(m); sc != nil {
+				e.mu.Lock()
+				sc.seenErr, sc.seen = err, true
+				e.mu.Unlock()
+			}
 			return outs, err
 		}
 	}
-	hf := func(m *message.Message) ([]*message.Message, error) {
-		e.mu.Lock()
-		c, hi := e.cur, e.curHi
-		e.mu.Unlock()
-		return c.handlerFunc(hi)(m)
+	for _, p := range protos {
+		sub := &chanSub{name: p.ctxS, ch: make(chan *message.Message)}
+		e.subs = append(e.subs, sub)
+		h := r.AddHandler(p.ctxH, p.ctxT, sub, "outs-topic", e.opub, e.hf)
+		if handlerLevel {
+			h.AddMiddleware(observer, mw) // the same middleware value on every handler
+		}
 	}
-	h := r.AddHandler(proto.ctxH, proto.ctxT, e.sub, "outs-topic", e.opub, hf)
-	if handlerLevel {
-		h.AddMiddleware(observer, mw)
-	} else {
+	if !handlerLevel {
 		r.AddMiddleware(observer, mw)
 	}
+	return e, nil
+}
+
+func (e *rtEnv) start() error {
 	ctx, cancel := context.WithCancel(context.Background())
 	e.cancel = cancel
-	go func() { e.runDone <- r.Run(ctx) }()
+	go func() { e.runDone <- e.router.Run(ctx) }()
 	select {
-	case <-r.Running():
+	case <-e.router.Running():
 	case <-time.After(settleTimeout):
 		cancel()
-		return nil, errors.New("router did not start")
+		return errors.New("router did not start")
 	}
-	return e, nil
+	return nil
 }
 
 func (e *rtEnv) close() {
@@ -438,51 +571,272 @@ func (e *rtEnv) close() {
 	}
 }
 
-func (e *rtEnv) run(c *pcase) string {
+func (e *rtEnv) register(c *pcase, m *message.Message) *script {
+	sc := &script{c: c, hi: c.newHerr()}
+	e.mu.Lock()
+	e.scripts[m] = sc
+	e.mu.Unlock()
+	return sc
+}
+
+func waitSettle(m *message.Message) string {
+	select {
+	case <-m.Acked():
+		return "ack"
+	case <-m.Nacked():
+		return "nack"
+	case <-time.After(settleTimeout):
+		return "timeout"
+	}
+}
+
+func (e *rtEnv) errSeen(sc *script, perr error) string {
+	e.mu.Lock()
+	seen, ret := sc.seen, sc.seenErr
+	e.mu.Unlock()
+	if !seen {
+		return "other:" + wh.HexS("middleware did not return")
+	}
+	return errClass(ret, sc.hi, perr)
+}
+
+func opubErr(c *pcase) error {
+	if !c.opubOk {
+		return errors.New("outputs publisher down")
+	}
+	return nil
+}
+
+func outsOf(recs []pubRec) string {
+	if len(recs) == 0 {
+		return "-"
+	}
+	os := make([]string, len(recs))
+	for i, r := range recs {
+		os[i] = wh.HexS(r.uuid)
+	}
+	return strings.Join(os, ",")
+}
+
+func (p *recPub) recsFrom(i int) []pubRec {
+	p.mu.Lock()
+	defer p.mu.Unlock()
+	if i > len(p.recs) {
+		i = len(p.recs)
+	}
+	return append([]pubRec{}, p.recs[i:]...)
+}
+
+// run: one message through handler number h, alone.
+func (e *rtEnv) run(c *pcase, h int) string {
 	msg := c.message()
-	hi := c.newHerr()
 	perr := c.pubErr()
 	e.ppub.reset(msg, perr)
-	var operr error
-	if !c.opubOk {
-		operr = errors.New("outputs publisher down")
-	}
-	e.opub.reset(msg, operr)
-	e.mu.Lock()
-	e.cur, e.curHi, e.seen, e.seenOut, e.seenErr = c, hi, false, nil, nil
-	e.mu.Unlock()
+	e.opub.reset(msg, opubErr(c))
+	sc := e.register(c, msg)
+	before := e.ctl.n()
 	select {
-	case e.sub.ch <- msg:
+	case e.subs[h].ch <- msg:
 	case <-time.After(settleTimeout):
 		return "P0 O:- E:other:" + wh.HexS("router did not take the message") + " A:- S:timeout"
 	}
-	settle := "timeout"
+	settle := waitSettle(msg)
+	obs := e.ppub.render() + " O:" + outsOf(e.opub.recsFrom(0)) + " E:" + e.errSeen(sc, perr) + " A:" + wh.Meta(msg.Metadata) + " S:" + settle
+	if c.pqf {
+		obs += " F:" + strconv.Itoa(e.ctl.n()-before)
+	}
+	return obs
+}
+
+// runSA: the same middleware value called directly (no Router context on the message).
+func (e *rtEnv) runSA(c *pcase) (obs string) {
+	msg := c.message()
+	perr := c.pubErr()
+	e.ppub.reset(msg, perr)
+	sc := e.register(c, msg)
+	defer func() {
+		if r := recover(); r != nil {
+			obs = e.ppub.render() + " O:- E:" + wh.PanicText(r) + " A:" + wh.Meta(msg.Metadata) + " S:-"
+		}
+	}()
+	outs, ret := e.mw(e.hf)(msg)
+	return e.ppub.render() + " O:" + uuids(outs) + " E:" + errClass(ret, sc.hi, perr) + " A:" + wh.Meta(msg.Metadata) + " S:-"
+}
+
+// ---------------------------------------------------------------- two messages in flight, forced interleaving
+
+// A is driven until it stops at the block point (inside the filter, inside the poison publisher's Publish, or in its
+// handler just before returning); B then runs to completion through the SAME wrapped handler; A is released.
+// Every message must come out exactly as if it had been alone (the middleware keeps nothing between messages).
+
+type gate struct {
+	once    sync.Once
+	reached chan struct{}
+	release chan struct{}
+}
+
+func newGate() *gate { return &gate{reached: make(chan struct{}), release: make(chan struct{})} }
+
+// stop blocks the first caller until open; later callers pass.
+func (g *gate) stop() {
+	first := false
+	g.once.Do(func() { first = true })
+	if first {
+		close(g.reached)
+		<-g.release
+	}
+}
+
+func waitCh(ch <-chan struct{}) bool {
 	select {
-	case <-msg.Acked():
-		settle = "ack"
-	case <-msg.Nacked():
-		settle = "nack"
+	case <-ch:
+		return true
+	case <-time.After(settleTimeout):
+		return false
+	}
+}
+
+func pairSA(a, b *pcase, block string) (obsA, obsB string) {
+	pub := &recPub{}
+	ctl := &filterCtl{}
+	ma, mb := a.message(), b.message()
+	hia, hib := a.newHerr(), b.newHerr()
+	g := newGate()
+	perr := map[*pcase]error{a: a.pubErr(), b: b.pubErr()}
+	pub.pair(map[string]pubScript{a.uuid: {ma, perr[a]}, b.uuid: {mb, perr[b]}}, func(m *message.Message) {
+		if block == "publish" {
+			g.stop()
+		}
+	})
+	mw, err := a.middleware(pub, ctl)
+	if err != nil {
+		return "P0 O:- E:other:" + wh.HexS(err.Error()) + " A:- S:-", "P0 O:- E:other:" + wh.HexS(err.Error()) + " A:- S:-"
+	}
+	if block == "filter" {
+		ctl.setHook(func(error) { g.stop() })
+	}
+	hw := mw(func(m *message.Message) ([]*message.Message, error) {
+		if m == ma {
+			outs, err := a.handlerFunc(hia)(m)
+			if block == "handler" {
+				g.stop()
+			}
+			return outs, err
+		}
+		return b.handlerFunc(hib)(m)
+	})
+	type res struct {
+		outs []*message.Message
+		err  error
+		pan  interface{}
+	}
+	call := func(m *message.Message) chan res {
+		ch := make(chan res, 1)
+		go func() {
+			var r res
+			defer func() {
+				if p := recover(); p != nil {
+					r.pan = p
+				}
+				ch <- r
+			}()
+			r.outs, r.err = hw(m)
+		}()
+		return ch
+	}
+	render := func(c *pcase, m *message.Message, hi *herrInfo, r res, ok bool) string {
+		e := "other:" + wh.HexS("middleware did not return")
+		o := "-"
+		if ok {
+			e, o = errClass(r.err, hi, perr[c]), uuids(r.outs)
+			if r.pan != nil {
+				e = wh.PanicText(r.pan)
+			}
+		}
+		return pub.renderFor(c.uuid) + " O:" + o + " E:" + e + " A:" + wh.Meta(m.Metadata) + " S:-"
+	}
+	chA := call(ma)
+	if !waitCh(g.reached) {
+		// A never got to the block point (it cannot on the unchanged code for the combinations generated)
+		close(g.release)
+	}
+	var rb res
+	okB := false
+	select {
+	case rb = <-call(mb):
+		okB = true
 	case <-time.After(settleTimeout):
 	}
-	e.mu.Lock()
-	seen, ret := e.seen, e.seenErr
-	e.mu.Unlock()
-	ec := "other:" + wh.HexS("middleware did not return")
-	if seen {
-		ec = errClass(ret, hi, perr)
+	select {
+	case <-g.release:
+	default:
+		close(g.release)
 	}
-	// outputs as handed to the Router's publisher
+	var ra res
+	okA := false
+	select {
+	case ra = <-chA:
+		okA = true
+	case <-time.After(settleTimeout):
+	}
+	return render(a, ma, hia, ra, okA), render(b, mb, hib, rb, okB)
+}
+
+// pair inside the running Router (both messages on handler 0, which handles them concurrently)
+func (e *rtEnv) pair(a, b *pcase, block string) (obsA, obsB string) {
+	ma, mb := a.message(), b.message()
+	g := newGate()
+	pa, pb := a.pubErr(), b.pubErr()
+	e.ppub.pair(map[string]pubScript{a.uuid: {ma, pa}, b.uuid: {mb, pb}}, func(m *message.Message) {
+		if block == "publish" {
+			g.stop()
+		}
+	})
+	// the outputs publisher serves both; a failure is scripted for the window in which only B publishes
+	e.opub.reset(nil, nil)
+	sa, sb := e.register(a, ma), e.register(b, mb)
+	if block == "filter" {
+		e.ctl.setHook(func(error) { g.stop() })
+	}
+	if block == "handler" {
+		sa.block, sa.reached = g.release, g.reached
+	}
+	defer e.ctl.setHook(nil)
+	timeout := "P0 O:- E:other:" + wh.HexS("router did not take the message") + " A:- S:timeout"
+	select {
+	case e.subs[0].ch <- ma:
+	case <-time.After(settleTimeout):
+		return timeout, timeout
+	}
+	if !waitCh(g.reached) && block != "handler" {
+		close(g.release)
+	}
+	o0 := e.opub.count()
 	e.opub.mu.Lock()
-	var os []string
-	for _, r := range e.opub.recs {
-		os = append(os, wh.HexS(r.uuid))
-	}
+	e.opub.fail = opubErr(b)
 	e.opub.mu.Unlock()
-	o := "-"
-	if len(os) > 0 {
-		o = strings.Join(os, ",")
+	select {
+	case e.subs[0].ch <- mb:
+	case <-time.After(settleTimeout):
+		return timeout, timeout
 	}
-	return e.ppub.render() + " O:" + o + " E:" + ec + " A:" + wh.Meta(msg.Metadata) + " S:" + settle
+	settleB := waitSettle(mb)
+	o1 := e.opub.count()
+	e.opub.mu.Lock()
+	e.opub.fail = opubErr(a)
+	e.opub.mu.Unlock()
+	select {
+	case <-g.release:
+	default:
+		close(g.release)
+	}
+	settleA := waitSettle(ma)
+	all := e.opub.recsFrom(0)
+	outsB := all[o0:o1]
+	outsA := append(append([]pubRec{}, all[:o0]...), all[o1:]...)
+	obsA = e.ppub.renderFor(a.uuid) + " O:" + outsOf(outsA) + " E:" + e.errSeen(sa, pa) + " A:" + wh.Meta(ma.Metadata) + " S:" + settleA
+	obsB = e.ppub.renderFor(b.uuid) + " O:" + outsOf(outsB) + " E:" + e.errSeen(sb, pb) + " A:" + wh.Meta(mb.Metadata) + " S:" + settleB
+	return obsA, obsB
 }
 
 // ---------------------------------------------------------------- generators
@@ -596,7 +950,11 @@ func count(out *wh.Out, c *pcase, obs string) {
 		}
 	}
 	if i := strings.Index(obs, " S:"); i >= 0 {
-		out.Count("settle." + obs[i+3:])
+		st := obs[i+3:]
+		if j := strings.IndexByte(st, ' '); j >= 0 {
+			st = st[:j]
+		}
+		out.Count("settle." + st)
 	}
 	if i := strings.Index(obs, " E:"); i >= 0 {
 		e := obs[i+3:]
@@ -654,7 +1012,10 @@ func genRT(out *wh.Out, rng *wh.Rng, perRouter int) {
 			default:
 				proto.filter = ff
 			}
-			env, err := newRT(proto, level)
+			env, err := newRT([]*pcase{proto}, level)
+			if err == nil {
+				err = env.start()
+			}
 			if err != nil {
 				out.Note("rt setup failed: " + err.Error())
 				fmt.Fprintln(os.Stderr, "rt setup failed:", err)
@@ -678,7 +1039,7 @@ func genRT(out *wh.Out, rng *wh.Rng, perRouter int) {
 					c.sets = append(c.sets, [2]string{metaKeyPool[rng.Intn(len(metaKeyPool))], rndStr(rng, 4)})
 				}
 				c.fillErr(rng, errKinds[rng.Intn(len(errKinds))])
-				obs := env.run(&c)
+				obs := env.run(&c, 0)
 				out.Case(c.req(), obs)
 				count(out, &c, obs)
 				if level {
@@ -688,6 +1049,261 @@ func genRT(out *wh.Out, rng *wh.Rng, perRouter int) {
 				}
 			}
 			env.close()
+		}
+	}
+}
+
+// ---------------------------------------------------------------- stateful filters (kind pqf)
+
+func rtSetup(out *wh.Out, protos []*pcase, level bool) *rtEnv {
+	env, err := newRT(protos, level)
+	if err == nil {
+		err = env.start()
+	}
+	if err != nil {
+		out.Note("rt setup failed: " + err.Error())
+		fmt.Fprintln(os.Stderr, "rt setup failed:", err)
+		os.Exit(3)
+	}
+	return env
+}
+
+func rndCase(rng *wh.Rng, mode string, errKind string) *pcase {
+	c := &pcase{mode: mode, uuid: rndStr(rng, 10), meta: rndMeta(rng, rng.Intn(4)), nouts: []int{0, 0, 2}[rng.Intn(3)], opubOk: true}
+	if rng.Intn(3) > 0 {
+		c.payload = []byte(rndStr(rng, 12))
+	}
+	if rng.Intn(3) == 0 {
+		c.pubFail = "x" + "publisher down " + rndStr(rng, 3)
+	}
+	c.fillErr(rng, errKind)
+	return c
+}
+
+// a filter whose answers are scripted per consultation: budget ("1100…"), alternating, first-occurrence-only …
+func genSeq(out *wh.Out, rng *wh.Rng, streams int) {
+	seqs := []string{"", "1", "0", "10", "01", "11", "00", "101", "010", "110", "001", "1000", "0111"}
+	for _, sq := range seqs {
+		for _, ek := range []string{"nil", "new", "sentinel", "multi"} {
+			for _, pf := range []bool{false, true} {
+				c := rndCase(rng, "sa", ek)
+				c.ptopic, c.pqf, c.seq, c.filter, c.pubFail = "poison-"+rndStr(rng, 3), true, sq, "seq:"+sq, ""
+				if pf {
+					c.pubFail = "x" + "publisher down"
+				}
+				obs := runSA(c)
+				out.Case(c.req(), obs)
+				count(out, c, obs)
+				out.Count("stateful_filter.single")
+			}
+		}
+	}
+	for st := 0; st < streams; st++ {
+		bits := make([]byte, 6+rng.Intn(8))
+		for i := range bits {
+			bits[i] = "01"[rng.Intn(2)]
+		}
+		if st%3 == 0 { // a budget: the first k failures go to the poison queue, the rest stay failing
+			k := 1 + rng.Intn(3)
+			for i := range bits {
+				bits[i] = '0'
+				if i < k {
+					bits[i] = '1'
+				}
+			}
+		}
+		all := string(bits)
+		proto := &pcase{ptopic: "poison-" + rndStr(rng, 3), filter: "seq:" + all, ctxT: "in-" + rndStr(rng, 4), ctxH: "h-" + rndStr(rng, 4), ctxS: "sub." + rndStr(rng, 4)}
+		rt := st%2 == 1
+		var env *rtEnv
+		if rt {
+			env = rtSetup(out, []*pcase{proto}, st%4 == 1)
+		} else {
+			var err error
+			if env, err = newRT([]*pcase{proto}, false); err != nil { // never started: the middleware value is used directly
+				fmt.Fprintln(os.Stderr, "setup failed:", err)
+				os.Exit(3)
+			}
+		}
+		for i := 0; i < 8; i++ {
+			c := rndCase(rng, "sa", []string{"nil", "new", "new", "sentinel", "multi"}[rng.Intn(5)])
+			c.ptopic, c.filter, c.pqf = proto.ptopic, proto.filter, true
+			used := env.ctl.n()
+			if used > len(all) {
+				used = len(all)
+			}
+			c.seq = all[used:]
+			var obs string
+			if rt {
+				c.mode, c.ctxT, c.ctxH, c.ctxS = "rt", proto.ctxT, proto.ctxH, proto.ctxS
+				c.opubOk = rng.Intn(4) > 0
+				obs = env.run(c, 0)
+			} else {
+				before := env.ctl.n()
+				obs = env.runSA(c) + " F:" + strconv.Itoa(env.ctl.n()-before)
+			}
+			out.Case(c.req(), obs)
+			count(out, c, obs)
+			out.Count("stateful_filter.stream")
+		}
+		if rt {
+			env.close()
+		}
+	}
+}
+
+// ---------------------------------------------------------------- two messages through one middleware value (kind pq2)
+
+func ctxKey(c *pcase) string { return c.ctxT + "\x00" + c.ctxH + "\x00" + c.ctxS }
+
+// runPQ2 plays A and B through ONE middleware value. block = after: B after A has completed; filter / publish /
+// handler: B runs completely while A is stopped inside the filter / inside the poison publisher / at the end of its
+// handler. lvl r|h: how the middleware is installed in the Router (both sub-cases stand-alone: "-").
+func runPQ2(lvl, block string, a, b *pcase) (string, string) {
+	if a.mode == "sa" && b.mode == "sa" && block != "after" {
+		return pairSA(a, b, block)
+	}
+	var protos []*pcase
+	idx := map[string]int{}
+	for _, c := range []*pcase{a, b} {
+		if c.mode == "rt" {
+			if _, ok := idx[ctxKey(c)]; !ok {
+				idx[ctxKey(c)] = len(protos)
+				protos = append(protos, c)
+			}
+		}
+	}
+	if len(protos) == 0 {
+		protos = []*pcase{{ptopic: a.ptopic, filter: a.filter, ctxT: "unused", ctxH: "unused", ctxS: "unused"}}
+	}
+	protos[0] = &pcase{ptopic: a.ptopic, filter: a.filter, ctxT: protos[0].ctxT, ctxH: protos[0].ctxH, ctxS: protos[0].ctxS}
+	env, err := newRT(protos, lvl == "h")
+	if err != nil {
+		e := "P0 O:- E:other:" + wh.HexS(err.Error()) + " A:- S:-"
+		return e, e
+	}
+	started := false
+	startIfNeeded := func(c *pcase) bool {
+		if c.mode == "rt" && !started {
+			started = true
+			return env.start() == nil
+		}
+		return true
+	}
+	defer func() {
+		if started {
+			env.close()
+		}
+	}()
+	one := func(c *pcase) string {
+		if !startIfNeeded(c) {
+			return "P0 O:- E:other:" + wh.HexS("router did not start") + " A:- S:timeout"
+		}
+		if c.mode == "sa" {
+			return env.runSA(c)
+		}
+		return env.run(c, idx[ctxKey(c)])
+	}
+	if block == "after" {
+		oa := one(a)
+		return oa, one(b)
+	}
+	// concurrent: both inside the Router, on the handler of A
+	if !startIfNeeded(a) {
+		e := "P0 O:- E:other:" + wh.HexS("router did not start") + " A:- S:timeout"
+		return e, e
+	}
+	return env.pair(a, b, block)
+}
+
+func pq2Req(lvl, block string, a, b *pcase) string {
+	return "pq2 " + lvl + " " + block + " " + strings.TrimPrefix(a.req(), "pq ") + " " + strings.TrimPrefix(b.req(), "pq ")
+}
+
+func emitPQ2(out *wh.Out, lvl, block string, a, b *pcase) {
+	oa, ob := runPQ2(lvl, block, a, b)
+	out.Case(pq2Req(lvl, block, a, b), oa+" "+ob)
+	out.Count("two_messages.block." + block)
+	out.Count("two_messages.modes." + a.mode + "+" + b.mode)
+	if a.mode == "rt" && b.mode == "rt" && ctxKey(a) != ctxKey(b) {
+		out.Count("two_messages.different_handlers")
+	}
+}
+
+func genPQ2(out *wh.Out, rng *wh.Rng, reps int) {
+	nctx := 0
+	ctxs := func() [3]string { // distinct topic / handler / subscriber names on every call
+		nctx++
+		k := strconv.Itoa(nctx)
+		return [3]string{"in" + k + "-" + rndStr(rng, 4), "h" + k + "-" + rndStr(rng, 4), "sub" + k + "." + rndStr(rng, 4)}
+	}
+	setCtx := func(c *pcase, x [3]string) { c.mode, c.ctxT, c.ctxH, c.ctxS = "rt", x[0], x[1], x[2] }
+	for rep := 0; rep < reps; rep++ {
+		// (1) forced interleavings: A fails with an accepted error and is stopped; B succeeds / fails differently
+		for _, block := range []string{"filter", "publish", "handler"} {
+			for _, bCat := range []string{"ok", "accepted", "refused"} {
+				for _, mode := range []string{"sa", "rt-r", "rt-h"} {
+					filter := []string{"fall", "is", "text:boom"}[rng.Intn(3)]
+					accepted := map[string][]string{"fall": {"new", "multi", "sentinel"}, "is": {"sentinel", "wrapw", "custom", "wrappkg"}, "text:boom": {"new", "wrapw"}}[filter]
+					refused := map[string][]string{"fall": nil, "is": {"new"}, "text:boom": {"sentinel", "multi"}}[filter]
+					a := rndCase(rng, "sa", accepted[rng.Intn(len(accepted))])
+					var b *pcase
+					switch {
+					case bCat == "ok" || (bCat == "refused" && len(refused) == 0):
+						b = rndCase(rng, "sa", "nil")
+					case bCat == "accepted":
+						b = rndCase(rng, "sa", accepted[rng.Intn(len(accepted))])
+					default:
+						b = rndCase(rng, "sa", refused[rng.Intn(len(refused))])
+						for i := range b.partS {
+							b.partS[i] = false
+						}
+					}
+					pt := "poison-" + rndStr(rng, 3)
+					a.ptopic, b.ptopic, a.filter, b.filter = pt, pt, filter, filter
+					a.uuid, b.uuid = "A-"+a.uuid, "B-"+b.uuid
+					a.pubFail = ""
+					if block == "publish" && rng.Intn(2) == 0 {
+						a.pubFail = "x" + "publisher down for A"
+					}
+					lvl := "-"
+					if mode != "sa" {
+						x := ctxs()
+						setCtx(a, x)
+						setCtx(b, x)
+						a.opubOk, b.opubOk = rng.Intn(4) > 0, rng.Intn(4) > 0
+						lvl = mode[3:]
+					}
+					emitPQ2(out, lvl, block, a, b)
+				}
+			}
+		}
+		// (2) one middleware value, different places: stand-alone then in a handler; two handlers of one Router
+		for _, lvl := range []string{"r", "h"} {
+			for _, shape := range []string{"sa,rt", "rt,rt2", "rt,sa", "rt2ok,rt", "rt,rt"} {
+				filter := []string{"all", "fall", "text:boom"}[rng.Intn(3)]
+				a, b := rndCase(rng, "sa", "new"), rndCase(rng, "sa", "new")
+				pt := "poison-" + rndStr(rng, 3)
+				a.ptopic, b.ptopic, a.filter, b.filter = pt, pt, filter, filter
+				x, y := ctxs(), ctxs()
+				switch shape {
+				case "sa,rt":
+					setCtx(b, x)
+				case "rt,rt2":
+					setCtx(a, x)
+					setCtx(b, y)
+				case "rt,sa":
+					setCtx(a, x)
+				case "rt2ok,rt": // the first message of the other handler is handled fine, then a failure here
+					setCtx(a, y)
+					a.fillErr(rng, "nil")
+					setCtx(b, x)
+				case "rt,rt":
+					setCtx(a, x)
+					setCtx(b, x)
+				}
+				emitPQ2(out, lvl, "after", a, b)
+			}
 		}
 	}
 }
@@ -740,41 +1356,31 @@ func parsePairs(s string) [][2]string {
 	return out
 }
 
-// replay rebuilds a case from its request line. Error kinds are reconstructed from what the line tells
-// (text, sentinel flag, plain/multi), which is all the model sees of them.
-func replay(out *wh.Out, line string) {
-	f := strings.Fields(line)
-	if len(f) == 2 && f[0] == "ctor" {
-		_, err := middleware.PoisonQueue(&recPub{}, unhex(f[1]))
-		o := "ok"
-		if err != nil {
-			o = "err"
-		}
-		out.Case(line, o)
-		return
+// parseCase rebuilds a case from the 14 fields after the request kind. Error kinds are reconstructed from what the
+// line tells (text, sentinel flag, plain/multi), which is all the model sees of them.
+func parseCase(f []string) *pcase {
+	c := &pcase{mode: f[0], ptopic: unhex(f[1]), ctxT: unhex(f[4]), ctxH: unhex(f[5]), ctxS: unhex(f[6]), uuid: unhex(f[7]), meta: map[string]string{}}
+	c.filter = f[2]
+	if strings.HasPrefix(f[2], "text:") {
+		c.filter = "text:" + unhex(f[2][5:])
 	}
-	if len(f) != 15 || f[0] != "pq" {
-		fmt.Fprintln(os.Stderr, "cannot replay:", line)
-		os.Exit(2)
+	if strings.HasPrefix(f[2], "seq:") {
+		c.pqf, c.seq = true, strings.TrimPrefix(f[2][4:], "-")
+		c.filter = "seq:" + c.seq
 	}
-	c := &pcase{mode: f[1], ptopic: unhex(f[2]), ctxT: unhex(f[5]), ctxH: unhex(f[6]), ctxS: unhex(f[7]), uuid: unhex(f[8]), meta: map[string]string{}}
-	c.filter = f[3]
-	if strings.HasPrefix(f[3], "text:") {
-		c.filter = "text:" + unhex(f[3][5:])
+	if strings.HasPrefix(f[3], "fail:") {
+		c.pubFail = "x" + unhex(f[3][5:])
 	}
-	if strings.HasPrefix(f[4], "fail:") {
-		c.pubFail = "x" + unhex(f[4][5:])
+	if f[8] != "-" {
+		c.payload = []byte(unhex(f[8]))
 	}
-	if f[9] != "-" {
-		c.payload = []byte(unhex(f[9]))
-	}
-	for _, kv := range parsePairs(f[10]) {
+	for _, kv := range parsePairs(f[9]) {
 		c.meta[kv[0]] = kv[1]
 	}
-	c.sets = parsePairs(f[11])
-	c.nouts, _ = strconv.Atoi(f[12])
-	c.opubOk = f[14] != "fail"
-	e := strings.Split(f[13], ":")
+	c.sets = parsePairs(f[10])
+	c.nouts, _ = strconv.Atoi(f[11])
+	c.opubOk = f[13] != "fail"
+	e := strings.Split(f[12], ":")
 	suffix := ": " + sentinel.Error()
 	switch e[0] {
 	case "nil":
@@ -800,17 +1406,43 @@ func replay(out *wh.Out, line string) {
 			c.partS = append(c.partS, s)
 		}
 	}
-	if c.mode == "sa" {
-		out.Case(c.req(), runSA(c))
-		return
+	return c
+}
+
+func replay(out *wh.Out, line string) {
+	f := strings.Fields(line)
+	switch {
+	case len(f) == 2 && f[0] == "ctor":
+		_, err := middleware.PoisonQueue(&recPub{}, unhex(f[1]))
+		o := "ok"
+		if err != nil {
+			o = "err"
+		}
+		out.Case(line, o)
+	case len(f) == 15 && (f[0] == "pq" || f[0] == "pqf"):
+		c := parseCase(f[1:])
+		if c.mode == "sa" {
+			out.Case(c.req(), runSA(c))
+			return
+		}
+		env, err := newRT([]*pcase{c}, false)
+		if err == nil {
+			err = env.start()
+		}
+		if err != nil {
+			fmt.Fprintln(os.Stderr, "rt setup failed:", err)
+			os.Exit(3)
+		}
+		out.Case(c.req(), env.run(c, 0))
+		env.close()
+	case len(f) == 31 && f[0] == "pq2":
+		a, b := parseCase(f[3:17]), parseCase(f[17:31])
+		oa, ob := runPQ2(f[1], f[2], a, b)
+		out.Case(pq2Req(f[1], f[2], a, b), oa+" "+ob)
+	default:
+		fmt.Fprintln(os.Stderr, "cannot replay:", line)
+		os.Exit(2)
 	}
-	env, err := newRT(c, false)
-	if err != nil {
-		fmt.Fprintln(os.Stderr, "rt setup failed:", err)
-		os.Exit(3)
-	}
-	out.Case(c.req(), env.run(c))
-	env.close()
 }
 
 func main() {
@@ -829,4 +1461,6 @@ func main() {
 	ctorCases(out, rng)
 	genSA(out, rng, reps)
 	genRT(out, rng, perRouter)
+	genSeq(out, rng, 12*reps)
+	genPQ2(out, rng, 2*reps)
 }
